@@ -614,6 +614,7 @@ impl World {
 // ---------------------------------------------------------------- generation
 #[derive(Clone, Copy, PartialEq)]
 enum Profile {
+    Long,   // a small pool, several dozen reuse cycles
     Order,  // fill, return in random order, retain a random subset, reuse (C08 / C09)
     Core,   // no resize, no close
     Resize, // resize, no close
@@ -981,9 +982,47 @@ fn gen_order_trace(g: &mut Gen) -> TraceOut {
     out
 }
 
+/// a small pool whose objects are reused several dozen times (what only shows on the n-th reuse)
+fn gen_long_trace(g: &mut Gen) -> TraceOut {
+    let r = &mut g.rng;
+    let n = 1 + r.below(2) as usize;
+    let hooks = |r: &mut Rng| -> Vec<bool> { (0..r.below(2)).map(|_| r.chance(50)).collect() };
+    let cfg = Cfg { max: n, lifo: r.chance(50), pre: hooks(r), post: hooks(r), pc: hooks(r) };
+    let mut w = World::new(cfg.clone());
+    let mut out = TraceOut { cfg, labels: vec![], obs: vec![], err: None };
+    let mut ok = true;
+    let cycles = 36 + r.below(12);
+    for c in 0..cycles {
+        if !ok {
+            break;
+        }
+        let held: Vec<usize> = w.held.lock().unwrap().keys().cloned().collect();
+        let t = w.sched.ntasks() as i64;
+        if held.len() < n && (held.is_empty() || r.chance(60)) {
+            ok = run_label(&mut w, &mut out, vec![L_START, t, OP_GET, 1, 0]) && run_task(&mut w, &mut out, r, t, 4);
+        } else if !held.is_empty() {
+            let o = held[r.below(held.len() as u64) as usize] as i64;
+            let op = if c % 17 == 16 { OP_TAKE } else { OP_DROP };
+            ok = run_label(&mut w, &mut out, vec![L_START, t, op, o, 0]) && run_task(&mut w, &mut out, r, t, 0);
+        }
+        if ok && c % 11 == 10 {
+            let t = w.sched.ntasks() as i64;
+            ok = run_label(&mut w, &mut out, vec![L_START, t, OP_STATUS, 0, 0]) && run_task(&mut w, &mut out, r, t, 0);
+        }
+    }
+    if out.err.is_none() {
+        finish(&mut w, &mut out, true, false);
+    }
+    cleanup(w);
+    out
+}
+
 fn gen_trace(g: &mut Gen) -> TraceOut {
     if g.profile == Profile::Order {
         return gen_order_trace(g);
+    }
+    if g.profile == Profile::Long {
+        return gen_long_trace(g);
     }
     let cfg = g.gen_cfg();
     let mut w = World::new(cfg.clone());
@@ -1692,6 +1731,7 @@ fn main() {
             let n: usize = args[3].parse().unwrap();
             let profile = match args[4].as_str() {
                 "order" => Profile::Order,
+                "long" => Profile::Long,
                 "core" => Profile::Core,
                 "resize" => Profile::Resize,
                 "close" => Profile::Close,
